@@ -8,6 +8,7 @@ import QibProofs.Lemmas.QubitizationBridge
 import Mathlib.Tactic.Ring
 import Mathlib.Tactic.FieldSimp
 import Mathlib.Tactic.Linarith
+import Mathlib.LinearAlgebra.Matrix.Kronecker
 /-!
 C19 — Qubitization circuits equal their defining phase-shift / alternating products (property theorems).
 
@@ -178,6 +179,45 @@ theorem C19_pcps_auxiliary_matrix (p : Pcps ℝ) (c : List (GateDesc ℝ)) (hm :
     · simp [hb]
     · simp [hb]
   · rw [C19_pcps_matrix_def]; exact commute_wireZero_of_diag n a' _
+
+/-- **canonical placement = `np.kron(processing.as_matrix(), id)`**: with the `m` encoding qubits on the leading wires of an
+`m+s`-wire register, the phase shift `exp(iθ(2P₀−1))` of the two theorems above is the Kronecker product of
+`as_matrix()` (`C19_pcps_matrix_def` with `p = (· = |0…0⟩)`) with the identity on the remaining `s` wires — the factor that
+`EigenvalueTransformation.as_matrix` multiplies with (first Kronecker factor = leading wires, C04's `embed_leading`) -/
+theorem C19_phase_shift_kron (m s : ℕ) (θ : ℝ) :
+    exp ((I * (θ : ℂ)) • reflOn (EncZero (m + s) (List.range m)))
+      = Matrix.reindex (Fin.appendEquiv m s) (Fin.appendEquiv m s)
+          (Matrix.kroneckerMap (· * ·) (exp ((I * (θ : ℂ)) • reflOn (fun r : Fin m → Bool => r = fun _ => false)))
+            (1 : Matrix (Fin s → Bool) (Fin s → Bool) ℂ)) := by
+  rw [C19_pcps_matrix_def, C19_pcps_matrix_def]
+  ext R C
+  obtain ⟨⟨r1, r2⟩, rfl⟩ := (Fin.appendEquiv m s).surjective R
+  obtain ⟨⟨c1, c2⟩, rfl⟩ := (Fin.appendEquiv m s).surjective C
+  have happ : ∀ (x : Fin m → Bool) (y : Fin s → Bool), (Fin.appendEquiv m s) (x, y) = Fin.append x y := fun _ _ => rfl
+  have hz : EncZero (m + s) (List.range m) (Fin.appendEquiv m s (r1, r2)) ↔ r1 = fun _ => false := by
+    simp only [EncZero, AllZero, List.mem_range, happ]
+    constructor
+    · intro h; funext j
+      have := h j.1 j.2
+      rw [ext_apply_lt _ (by omega : j.1 < m + s)] at this
+      have e : (⟨j.1, by omega⟩ : Fin (m + s)) = Fin.castAdd s j := rfl
+      rwa [e, Fin.append_left] at this
+    · rintro rfl e he
+      rw [ext_apply_lt _ (by omega : e < m + s)]
+      have e' : (⟨e, by omega⟩ : Fin (m + s)) = Fin.castAdd s ⟨e, he⟩ := rfl
+      rw [e', Fin.append_left]
+  simp only [Matrix.reindex_apply, Matrix.submatrix_apply, Equiv.symm_apply_apply, Matrix.kroneckerMap_apply,
+    Matrix.diagonal_apply, Matrix.one_apply, (Fin.appendEquiv m s).apply_eq_iff_eq, Prod.mk.injEq]
+  by_cases h1 : r1 = c1
+  · subst h1
+    by_cases h2 : r2 = c2
+    · subst h2
+      by_cases h0 : r1 = fun _ => false
+      · rw [if_pos (hz.mpr h0), if_pos h0]; simp
+      · have : ¬ EncZero (m + s) (List.range m) (Fin.appendEquiv m s (r1, r2)) := fun h => h0 (hz.mp h)
+        rw [if_neg this, if_neg h0]; simp
+    · simp [h2]
+  · simp [h1]
 
 /-! ### eigenvalue transformation -/
 
